@@ -699,7 +699,6 @@ Proof.
 Qed.
 
 (* ---------------------------------------------------------------- quadratic *)
-(* DEV *)
 Lemma quadratic_vieta : forall c0 c1 c2, ~ (c2 == 0)%Q ->
   let rr := quadratic_roots c0 c1 c2 in
   rad_ok (fst rr) -> rad_ok (snd rr) ->
@@ -742,5 +741,188 @@ Proof.
   rewrite E1, E0. ring.
 Qed.
 
+
+(* DEV *)
+(* ---------------------------------------------------------------- cubic *)
+Definition t1 (t : rx * rx * rx) : rx := fst (fst t).
+Definition t2 (t : rx * rx * rx) : rx := snd (fst t).
+Definition t3 (t : rx * rx * rx) : rx := snd t.
+
+Lemma is_zero_eval : forall e, is_zero e = true -> eval e = 0.
+Proof.
+  intros e H. destruct e; cbn [is_zero] in H; try discriminate.
+  cbn [eval]. apply ofQ_eq0. apply is0_true. exact H.
+Qed.
+
+Lemma three_neq0' : eval (rq 3) <> 0.
+Proof. rewrite eval_rq, ofQ_int. apply ofZ_pos_neq0. Qed.
+Lemma two_neq0' : eval (rq 2) <> 0.
+Proof. rewrite eval_rq, ofQ_int. apply ofZ_pos_neq0. Qed.
+
+Ltac rad_dec H :=
+  repeat (rewrite ?rad_ok_rneg, ?rad_ok_rdiv, ?rad_ok_radd, ?rad_ok_rsub, ?rad_ok_rmul in H).
+
+Lemma cubic_vieta : forall c0 c1 c2 c3, ~ (c3 == 0)%Q ->
+  let t := cubic_roots c0 c1 c2 c3 in
+  rad_ok (t1 t) -> rad_ok (t2 t) -> rad_ok (t3 t) ->
+  eval (t1 t) + eval (t2 t) + eval (t3 t) = - (ofQ c2 / ofQ c3) /\
+  eval (t1 t) * eval (t2 t) + eval (t1 t) * eval (t3 t) + eval (t2 t) * eval (t3 t) = ofQ c1 / ofQ c3 /\
+  eval (t1 t) * eval (t2 t) * eval (t3 t) = - (ofQ c0 / ofQ c3).
+Proof.
+  intros c0 c1 c2 c3 H3 t. subst t. unfold cubic_roots. cbv zeta.
+  pose proof (ofQ_neq0 _ H3) as N3. pose proof two_neq0 as T2. pose proof three_neq0 as T3.
+  assert (EB : ofQ (c2 / c3) = ofQ c2 / ofQ c3) by (apply ofQ_div; exact H3).
+  assert (EC : ofQ (c1 / c3) = ofQ c1 / ofQ c3) by (apply ofQ_div; exact H3).
+  assert (ED : ofQ (c0 / c3) = ofQ c0 / ofQ c3) by (apply ofQ_div; exact H3).
+  set (b := (c2 / c3)%Q) in *. set (c := (c1 / c3)%Q) in *. set (d := (c0 / c3)%Q) in *.
+  set (B := ofQ c2 / ofQ c3) in *. set (C := ofQ c1 / ofQ c3) in *. set (D := ofQ c0 / ofQ c3) in *.
+  clearbody b c d B C D.
+  destruct (is0 d) eqn:Ed.
+  - (* d == 0 *)
+    apply is0_true in Ed. apply ofQ_eq0 in Ed. rewrite ED in Ed.
+    assert (H1 : ~ (1 == 0)%Q) by qnz.
+    assert (X1 : forall z, z / 1 = z) by (intro z; field; apply (F_1_neq_0 Fth)).
+    pose proof (quadratic_vieta c b 1 H1) as QV. cbv zeta in QV.
+    destruct (quadratic_roots c b 1) as [q1 q2]. cbn [fst snd] in QV.
+    unfold set_of, set_insert, set_mem. cbn [fold_left existsb app orb].
+    destruct (rx_eqb q2 q1) eqn:E21; cbn [orb app t1 t2 t3 fst snd]; intros O1 O2 O3.
+    + assert (O2' : rad_ok q2) by (apply (rx_eqb_rad_ok _ _ E21); exact O2).
+      destruct (QV O2 O2') as [V1 V2]. rewrite (rx_eqb_eval _ _ E21) in V1, V2.
+      rewrite ofQ_1, EB, X1 in V1. rewrite ofQ_1, EC, X1 in V2. rewrite eval_rq, ofQ_0, Ed.
+      set (v := eval q1) in *. clearbody v.
+      repeat split; nsatz'.
+    + destruct (QV O2 O3) as [V1 V2].
+      rewrite ofQ_1, EB, X1 in V1. rewrite ofQ_1, EC, X1 in V2. rewrite eval_rq, ofQ_0, Ed.
+      set (v := eval q1) in *. set (w := eval q2) in *. clearbody v w.
+      repeat split; nsatz'.
+  - (* d <> 0 *)
+    set (delta0 := (b * b - 3 * c)%Q).
+    set (delta1 := (b * b * b * 2 - 9 * b * c + 27 * d)%Q).
+    set (delta := ((4 * (delta0 * delta0 * delta0) - delta1 * delta1) / 27)%Q).
+    assert (ED0 : ofQ delta0 = B * B - Z_ 3 * C) by (unfold delta0; pushQ; rewrite EB, EC; reflexivity).
+    assert (ED1 : ofQ delta1 = B * B * B * Z_ 2 - Z_ 9 * B * C + Z_ 27 * D)
+      by (unfold delta1; pushQ; rewrite EB, EC, ED; reflexivity).
+    assert (EDl : ofQ delta = (Z_ 4 * (ofQ delta0 * ofQ delta0 * ofQ delta0) - ofQ delta1 * ofQ delta1) / Z_ 27)
+      by (unfold delta; pushQ; reflexivity).
+    set (D0 := ofQ delta0) in *. set (D1 := ofQ delta1) in *.
+    assert (T27 : Z_ 27 <> 0) by apply ofZ_pos_neq0.
+    destruct (is0 delta) eqn:Edl.
+    + apply is0_true in Edl. apply ofQ_eq0 in Edl. rewrite EDl in Edl.
+      assert (Edisc : Z_ 4 * (D0 * D0 * D0) - D1 * D1 = 0).
+      { transitivity (((Z_ 4 * (D0 * D0 * D0) - D1 * D1) / Z_ 27) * Z_ 27); [field; exact T27|].
+        rewrite Edl. ring. }
+      destruct (is0 delta0) eqn:Ed0; cbn [t1 t2 t3 fst snd]; intros _ _ _.
+      * apply is0_true in Ed0. apply ofQ_eq0 in Ed0. fold D0 in Ed0.
+        assert (Ed1 : D1 = 0).
+        { assert (X : D1 * D1 = 0) by (rewrite Ed0 in Edisc; nsatz').
+          destruct (F_integral _ _ X); assumption. }
+        rewrite eval_rq. pushQ. rewrite EB.
+        rewrite ED0 in Ed0. rewrite ED1 in Ed1.
+        exact (cubic_triple B C D Ed0 Ed1).
+      * apply is0_false in Ed0.
+        assert (N0 : D0 <> 0) by (apply ofQ_neq0; exact Ed0).
+        assert (Q2 : ~ (2 * delta0 == 0)%Q).
+        { intro X. apply Ed0. apply (Qmult_integral_l 2); [qnz | exact X]. }
+        rewrite !eval_rq. pushQ. rewrite EB, EC, ED. fold D0.
+        rewrite ED0 in N0, Edisc |- *. rewrite ED1 in Edisc.
+        exact (cubic_double B C D N0 Edisc).
+    + (* general branch *)
+      apply is0_false in Edl. assert (NDl : ofQ delta <> 0) by (apply ofQ_neq0; exact Edl).
+      set (temp := rsqrt (rq (- (27) * delta))).
+      set (Cexpr0 := rdiv (radd (rq delta1) temp) (rq 2)).
+      set (Cexpr := if is_zero Cexpr0 then rdiv (rsub (rq delta1) temp) (rq 2) else Cexpr0).
+      set (CC := rcbrt Cexpr).
+      set (s3 := rsqrt (rq 3)).
+      set (coef := rdiv (rmul RI s3) (rq 2)).
+      set (cbrt1 := radd (rq (- (1 / 2))) coef).
+      set (cbrt2 := rsub (rq (- (1 / 2))) coef).
+      cbn [t1 t2 t3 fst snd]. intros O1 O2 _.
+      (* the radicals *)
+      rad_dec O1. destruct O1 as [[_ [OC _]] _].
+      rad_dec O2. destruct O2 as [[_ [[[_ Ocoef] _] _]] _].
+      unfold coef in Ocoef. rad_dec Ocoef. destruct Ocoef as [[Oi Os3] _].
+      cbn [rad_ok] in Oi.
+      pose proof (rsqrt_sq _ Os3) as HS3. rewrite eval_rq, ofQ_int in HS3. fold s3 in HS3.
+      pose proof (rcbrt_cube _ OC) as HC. fold CC in HC.
+      apply rad_ok_rcbrt in OC.
+      assert (Otemp : rad_ok temp).
+      { unfold Cexpr in OC. destruct (is_zero Cexpr0); [|unfold Cexpr0 in OC]; rad_dec OC; tauto. }
+      pose proof (rsqrt_sq _ Otemp) as HT. fold temp in HT. rewrite eval_rq in HT.
+      assert (HT' : eval temp * eval temp = - Z_ 27 * ofQ delta) by (rewrite HT; pushQ; reflexivity).
+      assert (HT2 : eval temp * eval temp = D1 * D1 - Z_ 4 * (D0 * D0 * D0)).
+      { rewrite HT', EDl. field. exact T27. }
+      assert (E0 : eval Cexpr0 = (D1 + eval temp) / Z_ 2).
+      { unfold Cexpr0. rewrite eval_rdiv by exact two_neq0'. rewrite eval_radd, !eval_rq, ofQ_int. reflexivity. }
+      assert (HCC : (eval CC * eval CC * eval CC = (D1 + eval temp) / Z_ 2
+                     \/ eval CC * eval CC * eval CC = (D1 - eval temp) / Z_ 2) /\ eval CC <> 0).
+      { unfold Cexpr in HC. destruct (is_zero Cexpr0) eqn:Ez.
+        - apply is_zero_eval in Ez. rewrite E0 in Ez.
+          rewrite eval_rdiv in HC by exact two_neq0'. rewrite eval_rsub, !eval_rq, ofQ_int in HC. fold D1 in HC.
+          split; [right; exact HC|].
+          intro X. rewrite X in HC.
+          assert (X1 : D1 + eval temp = 0).
+          { transitivity (((D1 + eval temp) / Z_ 2) * Z_ 2); [field; exact T2 | rewrite Ez; ring]. }
+          assert (X2 : D1 - eval temp = 0).
+          { transitivity (((D1 - eval temp) / Z_ 2) * Z_ 2); [field; exact T2 | rewrite <- HC; ring]. }
+          assert (X3 : eval temp * Z_ 2 = 0) by nsatz'.
+          destruct (F_integral _ _ X3) as [X4 | X4]; [|contradiction].
+          apply NDl. rewrite X4 in HT'.
+          assert (X5 : Z_ 27 * ofQ delta = 0).
+          { transitivity (- (- Z_ 27 * ofQ delta)); [ring | rewrite <- HT'; ring]. }
+          destruct (F_integral _ _ X5); [contradiction | assumption].
+        - rewrite E0 in HC. split; [left; exact HC|].
+          intro X. rewrite X in HC.
+          assert (X1 : eval temp = - D1).
+          { transitivity (((D1 + eval temp) / Z_ 2) * Z_ 2 - D1); [field; exact T2 | rewrite <- HC; ring]. }
+          revert Ez X1 Otemp. unfold Cexpr0, temp, rsqrt, rq.
+          destruct (sqrt_exact (Qred (- (27) * delta))) as [tq|] eqn:Es.
+          + cbn [radd rdiv rq is_zero eval]. intros Ez X1 _.
+            apply is0_false in Ez. apply Ez.
+            apply ofQ_inj. rewrite ofQ_0, ofQ_Qred.
+            rewrite ofQ_div by qnz. rewrite ofQ_add, !ofQ_Qred, X1, ofQ_int. fold D1. field. exact T2.
+          + cbn [rad_ok eval]. intros _ X1 [_ Osq].
+            apply (rsqrt_unfolded_irrational _ (- delta1)%Q Es Osq).
+            rewrite ofQ_opp. exact X1. }
+      destruct HCC as [HCC HC0].
+      destruct (cubic_general B C D (eval temp) (eval CC) fi (eval s3)) as [[NW1 NW2] V];
+        try assumption.
+      { rewrite <- ED0, <- ED1. exact HT2. }
+      { rewrite <- ED1. exact HCC. }
+      cbv zeta in NW1, NW2, V.
+      (* the three returned templates denote the expressions of cubic_general *)
+      assert (Ecoef : eval coef = (fi * eval s3) / Z_ 2).
+      { unfold coef. rewrite eval_rdiv by exact two_neq0'. rewrite eval_rmul, eval_rq, ofQ_int. reflexivity. }
+      assert (Ehalf : eval (rq (- (1 / 2))) = - (1 / Z_ 2)) by (rewrite eval_rq; pushQ; reflexivity).
+      assert (Ew1 : eval cbrt1 = - (1 / Z_ 2) + (fi * eval s3) / Z_ 2)
+        by (unfold cbrt1; rewrite eval_radd, Ehalf, Ecoef; reflexivity).
+      assert (Ew2 : eval cbrt2 = - (1 / Z_ 2) - (fi * eval s3) / Z_ 2)
+        by (unfold cbrt2; rewrite eval_rsub, Ehalf, Ecoef; reflexivity).
+      assert (NM1 : eval (rmul cbrt1 CC) <> 0) by (rewrite eval_rmul, Ew1; exact NW1).
+      assert (NM2 : eval (rmul cbrt2 CC) <> 0) by (rewrite eval_rmul, Ew2; exact NW2).
+      rewrite !eval_rneg.
+      rewrite !(eval_rdiv _ (rq 3)) by exact three_neq0'.
+      rewrite !eval_radd.
+      rewrite (eval_rdiv (rq delta0) CC) by exact HC0.
+      rewrite (eval_rdiv (rq delta0) (rmul cbrt1 CC)) by exact NM1.
+      rewrite (eval_rdiv (rq delta0) (rmul cbrt2 CC)) by exact NM2.
+      rewrite !eval_rmul, !eval_rq, Ew1, Ew2, EB, ofQ_int. fold D0. rewrite ED0.
+      exact V.
+Qed.
+
+Theorem cubic_factor : forall c0 c1 c2 c3, ~ (c3 == 0)%Q ->
+  let t := cubic_roots c0 c1 c2 c3 in
+  rad_ok (t1 t) -> rad_ok (t2 t) -> rad_ok (t3 t) ->
+  forall x, peval [c0; c1; c2; c3] x
+            = ofQ c3 * (x - eval (t1 t)) * (x - eval (t2 t)) * (x - eval (t3 t)).
+Proof.
+  intros c0 c1 c2 c3 H3 t O1 O2 O3 x.
+  destruct (cubic_vieta _ _ _ _ H3 O1 O2 O3) as [V1 [V2 V3]]. fold t in V1, V2, V3.
+  pose proof (ofQ_neq0 _ H3) as N3. cbn [peval].
+  set (r1 := eval (t1 t)) in *. set (r2 := eval (t2 t)) in *. set (r3 := eval (t3 t)) in *.
+  assert (E2 : ofQ c2 = - (ofQ c3 * (r1 + r2 + r3))) by (rewrite V1; field; exact N3).
+  assert (E1 : ofQ c1 = ofQ c3 * (r1 * r2 + r1 * r3 + r2 * r3)) by (rewrite V2; field; exact N3).
+  assert (E0 : ofQ c0 = - (ofQ c3 * (r1 * r2 * r3))) by (rewrite V3; field; exact N3).
+  rewrite E2, E1, E0. ring.
+Qed.
 
 End Sem.
